@@ -26,6 +26,7 @@ fn budget(t: Tier) -> Budget {
         cases: t.pick(250_000, 5_000_000),
         max_len: 260,
         shards: 16,
+        dual_profile: false,
     }
 }
 
